@@ -46,7 +46,10 @@ DAMAGED = [
     ('empty-port', 'GET', 'http://h:/', 'either'),
     ('nonnumeric-port', 'GET', 'http://h:http/', 'reject'),
     ('port-too-big', 'GET', 'http://h:65536/', 'reject'),
-    ('port-zero', 'GET', 'http://h:0/', 'either'),
+    ('port-zero', 'GET', 'http://h:0/', 'reject'),
+    ('connect-port-zero', 'CONNECT', 'h:0', 'reject'),
+    ('connect-port-zero-v4', 'CONNECT', '10.0.0.1:0', 'reject'),
+    ('port-zero-v6', 'GET', 'http://[::1]:0/x', 'reject'),
     ('negative-port', 'GET', 'http://h:-1/', 'reject'),
     ('unbalanced-bracket', 'GET', 'http://[::1/', 'reject'),
     ('unbalanced-bracket-2', 'GET', 'http://::1]/', 'reject'),
